@@ -71,14 +71,14 @@ pub open spec fn all_ge(s: Seq<Entry>, t: u64) -> bool { forall|i: int| 0 <= i <
 // acquisition: whatever other threads left behind - ANY queue satisfying the invariant
 #[verifier::external_body]
 fn lock_queue(q: &mut SchedulerQueue, time: &AtomicTime)
-    requires !old(q).locked(),
+    requires !old(q).locked(),                //@ C08 #lock-not-taken-twice
     ensures final(q).locked(), inv(final(q).view(), time.val()),
 { }
 // release: the invariant must hold; afterwards nothing is known about the queue
 #[verifier::external_body]
 fn unlock_queue(q: &mut SchedulerQueue, time: &AtomicTime)
     requires
-        old(q).locked(),
+        old(q).locked(),                      //@ C08 #unlock-only-when-held
         inv(old(q).view(), time.val()),      //@ C08,C01 #invariant-at-release
     ensures !final(q).locked(),
 { }
